@@ -2,7 +2,7 @@ SPECIFICATION FSpec
 CONSTANTS
   Mode = "focus"
   MaxStmts = 1
-  Families = {"quote", "comment", "doc", "lambda"}
+  Families = {"quote", "comment", "doc", "lambda", "semi", "blank"}
   Full = TRUE
   PerPoint = 16
 INVARIANT Emit
